@@ -21,7 +21,7 @@ Rec == ndJsonDeserialize(IOEnv.TRACE)
 VARIABLES l, w, toks, clis, nsa, skip, cnt
 vars == <<l, w, toks, clis, nsa, skip, cnt>>
 
-N == INSTANCE Netcode WITH Tokens <- toks, Clients <- clis, MaxClients0 <- 0, ServerAddrs <- nsa, TokenSingleUse <- FALSE
+N == INSTANCE Netcode WITH Tokens <- toks, Clients <- clis, MaxClients0 <- 0, ServerAddrs <- nsa, TokenTable <- 2048, TokenSingleUse <- FALSE
 
 World0(maxc, start) ==
     [slots |-> [i \in 1..maxc |-> N!NoConn], pending |-> <<>>, entries |-> <<>>, maxc |-> maxc, chalSeq |-> 0, gseq |-> N!GBASE, now |-> start,
